@@ -47,6 +47,7 @@ from happysimulator.components.server.concurrency import (  # noqa: E402
     FixedConcurrency,
     WeightedConcurrency,
 )
+from happysimulator.components.server.server import Server  # noqa: E402
 from happysimulator.components.server.thread_pool import ThreadPool  # noqa: E402
 from happysimulator.components.sync import Barrier, Condition, Mutex, RWLock, Semaphore  # noqa: E402
 from happysimulator.distributions.constant import ConstantLatency  # noqa: E402
@@ -274,7 +275,7 @@ class World:
         waiting = [w for w in self.ws if w.state == WAIT and w.blocked and not ad.expired(w, prev_t)]
         if waiting and ad.ordered:
             head = min(waiting, key=ad.order_key)
-            if ad.admissible(self.occupying() + [head]):
+            if ad.head_fits(self, head):
                 self.flag("grant-late", ad.late_shape(self, head),
                           f"at the end of instant {tk(prev_t)} blocked {head.name} ({head.kind}, amount {head.amt}, "
                           f"requested at {tk(head.t_req)}) is first in line and fits next to holders "
@@ -376,6 +377,17 @@ class Adapter:
 
     def order_key(self, ws):
         return (0, ws.s_req)
+
+    def head_fits(self, W, head):
+        """Clock advance: would the first blocked acquirer fit next to the current holders?"""
+        return self.admissible(W.occupying() + [head])
+
+    def extra_events(self, W, when):
+        """Harness events besides the arrivals; when = 'first' (created before them) / 'last'."""
+        return []
+
+    def sim_kwargs(self):
+        return {}
 
     def expired(self, ws, now):
         return ws.expiry is not None and now >= ws.expiry
@@ -883,7 +895,9 @@ class PoolAd(Adapter):
         self.lat = c["latency"]
         self.timeout = c["timeout"]
         self.sink = _Sink("db")
-        self.prim = ConnectionPool("pool", target=self.sink, min_connections=0, max_connections=self.cap,
+        self.min = c.get("min", 0)
+        self.warm = c.get("warm")  # None | 'first' | 'last': warmup() event created before/after the arrivals
+        self.prim = ConnectionPool("pool", target=self.sink, min_connections=self.min, max_connections=self.cap,
                                    connection_timeout=float(self.timeout), idle_timeout=float(c.get("idle", 64)),
                                    connection_latency=ConstantLatency(float(self.lat)))
         for w in W.ws:
@@ -892,6 +906,21 @@ class PoolAd(Adapter):
 
     def limit_text(self):
         return f"max_connections={self.cap}"
+
+    def extra_events(self, W, when):
+        return [self.prim.warmup()] if self.warm == when else []
+
+    def sim_kwargs(self):
+        # with min_connections > 0 the pool re-arms its idle check for ever; everything the workers
+        # do (last arrival 5t + timeout 16t + set-up 2t + holds) is over long before 40t
+        return {"end_time": Instant(40 * TICK)} if self.min else {}
+
+    def head_fits(self, W, head):
+        if pub(self.prim, "idle_connections", 0) > 0:
+            return True  # an idle connection and a queued waiter at the end of an instant
+        if self.warm and pub(self.prim, "total_connections", 0) < self.min:
+            return False  # the warm-up is still setting connections up: their slots are taken
+        return self.admissible(W.occupying() + [head])
 
     def script(self, W, ws):
         pool = self.prim
@@ -922,6 +951,8 @@ class PoolAd(Adapter):
         return evs
 
     def admit_shape(self, W, ws):
+        if self.warm:
+            return "with-warm-up"
         # some worker requested while another one's connection set-up was in progress
         for a in W.ws:
             if a.blocked is False and a.s_req is not None:
@@ -966,6 +997,8 @@ class PoolAd(Adapter):
         pend = pub(self.prim, "pending_requests")
         if pend is not None and pend < nblocked:
             return "handed-off-but-acquire-not-returned"
+        if pub(self.prim, "idle_connections", 0) > 0:
+            return "idle-connection-while-waiter-queued"
         return W.tie_shape(head)
 
 
@@ -1169,6 +1202,104 @@ class ThreadPoolAd(Adapter):
         return "left-in-queue"
 
 
+class _StartHook(ConstantLatency):
+    """Service-time distribution of the Server: constant, and the (public, constructor-injected)
+    sampling call is the moment a request starts service."""
+
+    def __init__(self, seconds, on_start):
+        super().__init__(seconds)
+        self.on_start = on_start
+
+    def get_latency(self, current_time):
+        self.on_start()
+        return super().get_latency(current_time)
+
+
+class ServerAd(Adapter):
+    """Server(concurrency=<int>) = FixedConcurrency limiter behind a queue; requests declare a
+    metadata weight (spec field 'amount'), which a fixed limiter must ignore consistently: every
+    request in service takes exactly one slot.  Requests are anonymous to the harness (same service
+    time for all): a start is booked on the earliest arrival not yet started, so the fifo clause is
+    void here; occupancy, conservation, grant-late and starvation are judged."""
+
+    name = "Server"
+    block_on_time = True
+
+    def build(self, W):
+        self.cap = self.cfg["limit"]
+        self.svc = self.cfg["service"]
+        self.W = W
+        self.prim = Server("srv", concurrency=self.cap, service_time=_StartHook(float(self.svc), self._start))
+        for w in W.ws:
+            w.prio, w.amt, w.hold = w.amt, 1, self.svc
+        return [self.prim]
+
+    def limit_text(self):
+        return f"concurrency={self.cap}"
+
+    def entry(self, W, ws, proc):
+        return self.prim
+
+    def meta(self, ws):
+        return {"tag": ws.idx, "weight": ws.prio}
+
+    def script(self, W, ws):
+        return None
+
+    def _start(self):
+        W = self.W
+        cands = [w for w in W.ws if w.state == WAIT]
+        if not cands:
+            W.flag("granted-twice", W.tie_shape(), f"a request started service at {tk(W.now())} but every arrival "
+                                                   f"has already been started")
+            return
+        ws = min(cands, key=lambda w: w.s_req)
+        if ws.blocked is None:
+            ws.blocked = False
+        W.grant(ws)
+        ws.t_rel = ws.t_grant + self.svc * TICK
+
+    def settle(self, W, now):
+        for w in W.ws:
+            if w.state == HOLD and w.t_rel is not None and w.t_rel <= now:
+                w.state = DONE
+
+    def hook(self, W, ev):
+        if ev.target is self.prim and ev.event_type == "arr":
+            ws = W.ws[ev.context["metadata"]["tag"]]
+            if ws.t_req is None:
+                W.req(ws)
+
+    def _model(self):
+        return pub(self.prim, "concurrency_model")
+
+    def sample(self, W):
+        m = self._model()
+        act, avail, lim = pub(m, "active"), pub(m, "available"), pub(m, "limit")
+        if act is None:
+            return ()
+        out = []
+        if lim is not None and act > lim:
+            out.append(("over-admit", f"limiter active={act} > limit={lim}"))
+        if avail is not None and lim is not None and act + avail != lim:
+            out.append(("conservation", f"limiter active={act} + available={avail} != limit={lim}"))
+        return out
+
+    def at_instant_end(self, W):
+        act = pub(self._model(), "active")
+        nh = sum(1 for w in W.ws if w.state == HOLD)
+        if act is not None and act != nh:
+            return [("conservation", f"limiter active={act} but {nh} request(s) are in service "
+                                     f"(weights {[w.prio for w in W.ws if w.state == HOLD]})")]
+        return ()
+
+    def final(self, W):
+        act = pub(self._model(), "active")
+        if act:
+            return [("conservation", f"no request in service but limiter active={act} (leak)")]
+        return ()
+
+
 class PreemptAd(Adapter):
     name = "PreemptibleResource"
 
@@ -1243,7 +1374,7 @@ class PreemptAd(Adapter):
 
 
 ADAPTERS = {a.name: a for a in (ResourceAd, SemaphoreAd, MutexAd, RWLockAd, BarrierAd, ConditionAd,
-                                PoolAd, BulkheadAd, ThreadPoolAd, PreemptAd)}
+                                PoolAd, BulkheadAd, ThreadPoolAd, PreemptAd, ServerAd)}
 
 
 # ---------------------------------------------------------------------------
@@ -1265,12 +1396,16 @@ def run_case(prim, cfg, specs):
             extra.append(f)
             tgt = f
         entries.append(tgt)
-    sim = Simulation(entities=ents + procs + extra)
+    sim = Simulation(entities=ents + procs + extra, **ad.sim_kwargs())
     W.clock_ent = procs[0]
+    for ev in ad.extra_events(W, "first"):
+        sim.schedule(ev)
     for ws, tgt in zip(W.ws, entries):
         md = {"tag": ws.idx}
         md.update(ad.meta(ws))
         sim.schedule(Event(time=Instant(ws.off * TICK), event_type="arr", target=tgt, context={"metadata": md}))
+    for ev in ad.extra_events(W, "last"):
+        sim.schedule(ev)
     sim.control.on_time_advance(W.on_time)
     try:
         res = run_guarded(sim, max_events=MAX_EVENTS, storm=STORM, on_event=W.on_event)
@@ -1414,20 +1549,23 @@ def _lim_make(kind, limit):
     return WeightedConcurrency(limit)
 
 
-def _lim_ops(kind):
-    if kind == "Fixed":
-        return [("a", 1), ("r", 1), ("x", 1)]
+def _lim_ops(kind, weights=(1, 2)):
+    """a=acquire(w) r=release(w) of a request granted with weight w, x=surplus release, up/down=scale.
+    Fixed/Dynamic must ignore the weight consistently (one slot per request in both directions)."""
+    ops = [("a", w) for w in weights] + [("r", w) for w in weights] + [("x", 1)]
     if kind == "Dynamic":
-        return [("a", 1), ("r", 1), ("x", 1), ("up", 1), ("down", 1)]
-    return [("a", 1), ("a", 2), ("r", 1), ("r", 2), ("x", 1)]
+        ops += [("up", 1), ("down", 1)]
+    return ops
 
 
 def limiter_run(kind, limit, seq):
-    """Apply ``seq`` to a fresh limiter.  Ghost model: multiset of granted weights.
-    'r' releases a granted weight (skipped when none is held: not an interleaving of legitimate
-    calls), 'x' is a surplus release (legitimate sequences never contain it; afterwards only
-    the 'never above capacity' bounds are checked)."""
+    """Apply ``seq`` to a fresh limiter.  Ghost model: multiset of the weights of granted requests;
+    a granted request occupies ``w`` units on the weighted model and ONE slot on the others.
+    'r' releases a granted request with the weight it was acquired with (skipped when no such request
+    is held: not an interleaving of legitimate calls), 'x' is a surplus release (legitimate sequences
+    never contain it; afterwards only the 'never above capacity' bounds are checked)."""
     lim = _lim_make(kind, limit)
+    cost = (lambda w: w) if kind == "Weighted" else (lambda w: 1)
     held = []
     tainted = False
     cur = limit
@@ -1435,21 +1573,28 @@ def limiter_run(kind, limit, seq):
     trace = []
     for i, (op, w) in enumerate(seq):
         if op == "a":
-            ok = lim.acquire(w) if kind == "Weighted" else lim.acquire()
+            hc = lim.has_capacity(w)
+            ok = lim.acquire(w)
             trace.append((op, w, ok))
+            if bool(hc) != bool(ok):
+                viol.append(("grant-late" if hc is False else "starved", "has-capacity-disagrees",
+                             f"step {i}: has_capacity({w})={hc} but acquire({w})={ok}", i))
             if ok:
                 held.append(w)
-                if not tainted and sum(held) > cur:
-                    viol.append(("over-admit", "legit-sequence", f"step {i}: acquire({w}) admitted with {sum(held) - w} already held, limit {cur}", i))
+                used = sum(cost(x) for x in held)
+                if not tainted and used > cur:
+                    viol.append(("over-admit", "legit-sequence", f"step {i}: acquire({w}) admitted with {used - cost(w)} already held, limit {cur}", i))
+            elif not tainted and sum(cost(x) for x in held) + cost(w) <= cur:
+                viol.append(("grant-late", "legit-sequence", f"step {i}: acquire({w}) refused with {sum(cost(x) for x in held)} held, limit {cur}", i))
         elif op == "r":
             if w not in held:
                 trace.append((op, w, "skipped"))
                 continue
             held.remove(w)
-            lim.release(w) if kind == "Weighted" else lim.release()
+            lim.release(w)
             trace.append((op, w, None))
         elif op == "x":
-            lim.release(w) if kind == "Weighted" else lim.release()
+            lim.release(w)
             tainted = True
             trace.append((op, w, None))
         elif op == "up":
@@ -1461,14 +1606,16 @@ def limiter_run(kind, limit, seq):
             cur = max(1, cur - 1)
             trace.append((op, w, lim.limit))
         act, avail, lm = lim.active, lim.available, lim.limit
+        used = sum(cost(x) for x in held)
         shape = "surplus-release" if tainted else "legit-sequence"
         if avail > lm:
             viol.append(("above-capacity", shape, f"step {i} {op}: available={avail} > limit={lm}", i))
         if act < 0:
             viol.append(("above-capacity", shape, f"step {i} {op}: active={act} < 0", i))
         if not tainted:
-            if act != sum(held):
-                viol.append(("conservation", shape, f"step {i} {op}: active={act} but {sum(held)} is held", i))
+            if act != used:
+                viol.append(("conservation", shape, f"step {i} {op}({w}): active={act} but the granted requests "
+                                                    f"(weights {held}) occupy {used}", i))
             if act <= lm and act + avail != lm:
                 viol.append(("conservation", shape, f"step {i} {op}: active={act} + available={avail} != limit={lm}", i))
             if lm != cur:
@@ -1477,8 +1624,8 @@ def limiter_run(kind, limit, seq):
 
 
 def _lim_work(job):
-    kind, limit, depth, firsts = job
-    ops = _lim_ops(kind)
+    kind, limit, depth, firsts, weights = job
+    ops = _lim_ops(kind, weights)
     st = {"exec": 0, "trans": 0, "nontriv": 0, "outcomes": set(), "viol": {}, "samples": []}
     for first in firsts:
         for rest in itertools.product(ops, repeat=depth - 1):
@@ -1499,21 +1646,24 @@ def _lim_work(job):
     return st
 
 
-def run_limiters(run, depth, seed):
+def run_limiters(run, tier, seed):
     t0 = time.time()
+    # (weights, sequence length) per model; sequences of that length contain every shorter one as a prefix
+    if tier == "quick":
+        plan = {"Fixed": ((1, 2), 7), "Dynamic": ((1, 2), 6), "Weighted": ((1, 2), 7)}
+    else:
+        plan = {"Fixed": ((1, 2, 3), 7), "Dynamic": ((1, 2, 3), 6), "Weighted": ((1, 2, 3), 7)}
     d = run.driver("limiters", {"limiters": ["FixedConcurrency", "DynamicConcurrency", "WeightedConcurrency"],
-                                "limits": [1, 2, 3], "op_sequence_length": depth,
-                                "ops": {k: _lim_ops(k) for k in ("Fixed", "Dynamic", "Weighted")},
-                                "note": "a=acquire r=release of a granted weight x=surplus release up/down=scale"})
+                                "limits": [1, 2, 3],
+                                "plan(weights, op_sequence_length)": plan,
+                                "ops": {k: _lim_ops(k, plan[k][0]) for k in plan},
+                                "note": "a=acquire(w) r=release(w) of a request granted with weight w, x=surplus "
+                                        "release, up/down=scale; has_capacity(w) is compared with acquire(w)"})
     jobs = []
-    for kind in ("Fixed", "Dynamic", "Weighted"):
+    for kind, (weights, depth) in plan.items():
         for limit in (1, 2, 3):
-            for dep in range(1, depth + 1):
-                ops = _lim_ops(kind)
-                if dep < depth:
-                    continue  # sequences of length `depth` contain every shorter one as a prefix
-                jobs.append((kind, limit, dep, ops))
-    jobs = [(k, l, dp, [f]) for (k, l, dp, ops) in jobs for f in ops]
+            for f in _lim_ops(kind, weights):
+                jobs.append((kind, limit, depth, [f], weights))
     outcomes = set()
     for st in pmap(_lim_work, rotate(jobs, seed)):
         d.executions += st["exec"]
@@ -1634,6 +1784,15 @@ def drivers(tier):
     plans = [(1, pf), (2, pf), (3, pf0)] if q else [(1, pf), (2, pf), (3, pf), (4, pf0)]
     D.append(("connpool", "ConnectionPool", pcfg, plans))
 
+    # ---- ConnectionPool warm-up: warmup() at t=0, slow set-up, clients before/during/after it ---
+    wcfg = [{"max": m, "min": mn, "latency": 2, "timeout": to, "idle": 64, "warm": wm}
+            for m in (1, 2) for mn in (1, 2) if mn <= m for to in ((16,) if q else (1, 16))
+            for wm in ("first", "last")]
+    wf = [[0, 1, 2, 3, 4, 5], ["acq"], [1], [1, 2], [0]]
+    wf2 = [[0, 1, 2, 3, 4, 5], ["acq"], [1], HOLDS, [0, 1]]
+    plans = [(1, wf2), (2, wf2), (3, wf)] if q else [(1, wf2), (2, wf2), (3, wf2)]
+    D.append(("connpool_warmup", "ConnectionPool", wcfg, plans))
+
     # ---- Bulkhead -------------------------------------------------------------------
     bhcfg = [{"max": m, "queue": qq, "wait": wt} for m in (1, 2) for qq in (0, 1, 2) for wt in (None, 1)]
     bhf = [OFFS, ["req"], [1], HOLDS, [0, 1]]
@@ -1647,6 +1806,13 @@ def drivers(tier):
     tf0 = [OFFS, ["task"], [1], HOLDS, [0]]
     plans = [(1, tf), (2, tf), (3, tf)] if q else [(1, tf), (2, tf), (3, tf), (4, tf)]
     D.append(("threadpool", "ThreadPool", tcfg, plans))
+
+    # ---- Server on a FixedConcurrency limiter, requests declaring weights (amount = weight) ------
+    scfg = [{"limit": lm, "service": sv} for lm in (1, 2) for sv in (1, 2)]
+    sf = [OFFS, ["req"], [1, 2, 3], [0], [0, 1]]
+    sf0 = [[0, 1, 2, 3], ["req"], [1, 2], [0], [0]]
+    plans = [(1, sf), (2, sf), (3, sf), (4, sf0)] if q else [(1, sf), (2, sf), (3, sf), (4, sf)]
+    D.append(("server_fixed", "Server", scfg, plans))
 
     # ---- PreemptibleResource ----------------------------------------------------------------
     prcfg = [{"cap": 1}, {"cap": 2}]
@@ -1710,7 +1876,7 @@ def main(tier, seed, only=None):
             continue
         run_driver(run, name, prim, cfgs, plans, seed, SPEC_DOC)
     if not only or "limiters" in only:
-        run_limiters(run, 7 if tier == "quick" else 9, seed)
+        run_limiters(run, tier, seed)
     return run.finish()
 
 
